@@ -57,3 +57,27 @@ Theorem C20_mulv_float64_close_partial : forall (K : Z) (m : matF) (v : vecF),
   (Rabs (BinarySingleNaN.B2R (r (mulVF m v)) - (P1 + P2 + P3)) <= bound3 u64 eta64 P1 P2 P3)%R.
 Proof. exact mulVF_close. Qed.
 Print Assumptions C20_mulv_float64_close_partial.
+
+(* float64 closeness of the whole matrix product (partial in the same sense): for EVERY pair of finite
+   matrices whose 27 elementary products stay below 2^K, each of the nine entries of MulM (row selector r,
+   column selector c) is finite and within the same bound of the exact row-by-column sum; premises are
+   satisfiable (`mulMF_close_premises`) *)
+Theorem C20_mulm_float64_close_partial : forall (K : Z) (m o : matF),
+  (-1074 <= K)%Z /\ (K + 2 < 1024)%Z -> finM m -> finM o -> prodsM K m o ->
+  forall r c, selV r -> selM c ->
+  let P1 := (BinarySingleNaN.B2R (r (c0 m)) * BinarySingleNaN.B2R (v0 (c o)))%R in
+  let P2 := (BinarySingleNaN.B2R (r (c1 m)) * BinarySingleNaN.B2R (v1 (c o)))%R in
+  let P3 := (BinarySingleNaN.B2R (r (c2 m)) * BinarySingleNaN.B2R (v2 (c o)))%R in
+  BinarySingleNaN.is_finite (r (c (mulMF m o))) = true /\
+  (Rabs (BinarySingleNaN.B2R (r (c (mulMF m o))) - (P1 + P2 + P3)) <= bound3 u64 eta64 P1 P2 P3)%R.
+Proof. exact mulMF_close. Qed.
+Print Assumptions C20_mulm_float64_close_partial.
+
+(* Transpose in binary64 involves no rounding: an involution that moves each entry unchanged *)
+Theorem C20_transpose_float64_exact : forall m : matF,
+  transposeF (transposeF m) = m /\
+  (v0 (c0 (transposeF m)) = v0 (c0 m) /\ v1 (c0 (transposeF m)) = v0 (c1 m) /\ v2 (c0 (transposeF m)) = v0 (c2 m)) /\
+  (v0 (c1 (transposeF m)) = v1 (c0 m) /\ v1 (c1 (transposeF m)) = v1 (c1 m) /\ v2 (c1 (transposeF m)) = v1 (c2 m)) /\
+  (v0 (c2 (transposeF m)) = v2 (c0 m) /\ v1 (c2 (transposeF m)) = v2 (c1 m) /\ v2 (c2 (transposeF m)) = v2 (c2 m)).
+Proof. exact transposeF_exact. Qed.
+Print Assumptions C20_transpose_float64_exact.
